@@ -92,6 +92,10 @@ structure Answer (K : Type) where
   qbx : Nat → Nat → Except ErrKind K
   lindep : Nat → Except ErrKind Bool
   cond : Except ErrKind K := .error .NotModelled
+  /-- set when `unknowns()` throws although the other queries still answer (e.g. AdjEnvelope with a
+      regularisation subset that does not resolve the defect: r, rtr, defect, lindep, q0_xx, q_bb only
+      need x0); the driver then prints `throw <kind>` for `x` -/
+  xErr : Option ErrKind := none
 
 /-- which queries need a successful solve (throwing kinds are propagated per query) -/
 abbrev Solver (K : Type) := Problem K → Except ErrKind (Answer K)
